@@ -97,7 +97,10 @@ func clockBurst(cr *ClockRace, long string) (msg string) {
 			if r.err == nil || !calls.IsTimeoutish("error:"+r.err.Error()) {
 				return fmt.Sprintf("clock race: catastrophic match with a %d ms timeout returned err=%v after %v", cr.LongMs, r.err, r.el)
 			}
-			if r.el < time.Duration(cr.LongMs)*time.Millisecond-50*time.Millisecond {
+			// (how early or late a timeout may fire is C14's subject: a deadline is dated from the clock goroutine's
+			// last tick, so it is early by however long that goroutine was descheduled - 81 ms were seen on a
+			// machine with a load of 40; only a grossly early timeout is reported here)
+			if r.el < time.Duration(cr.LongMs)*time.Millisecond/2 {
 				return fmt.Sprintf("clock race: the %d ms timeout fired after %v", cr.LongMs, r.el)
 			}
 		case <-time.After(time.Duration(cr.LongMs)*time.Millisecond + 4*time.Second):
